@@ -221,6 +221,13 @@ def sched_configs(tier="quick"):
     for (s, k, j) in ff:
         for flat in (True, False):
             out.append(dict(env="ffsp", stages=s, mas=k, jobs=j, flatten=flat, n=j * s))
+    # unusual magnitudes: wide spread of unrelated-machine run times on tiny flow shops (sentinels in the schedule table must
+    # never win the makespan), and long horizons (processing times in a fine time unit: makespans beyond 10^4)
+    out.append(dict(env="ffsp", stages=2, mas=2, jobs=2, flatten=True, n=4, tmax=80))
+    out.append(dict(env="ffsp", stages=2, mas=3, jobs=2, flatten=False, n=4, tmax=200))
+    out.append(dict(env="fjsp", jobs=4, mas=2, min_ops=2, max_ops=3, mask_no_ops=True, n=12, pmax=6000))
+    out.append(dict(env="jssp", jobs=4, mas=3, one2one=True, mask_no_ops=True, n=12, pmax=6000))
+    out.append(dict(env="jssp", jobs=3, mas=2, min_ops=1, max_ops=2, one2one=False, mask_no_ops=False, n=6, pmax=9000))
     for n in ((4, 7) if tier == "quick" else (3, 4, 7, 10, 20)):
         out.append(dict(env="smtwtp", n=n))
     return out
